@@ -226,11 +226,26 @@ func (w *c41Worker) run(bi int, beh []map[string]any, res *vh.Result) {
 	realOf := func(id int) uint64 { return base + uint64(id) }
 
 	// quiesce: channel state of every survey as the model says
+	// suspect: the registry (read through the shim) is not what the model says. An internal difference alone is not
+	// a verdict: the behaviour goes on and the observable consequences (a survey that does not finish, a result that
+	// lacks answers) decide; without any it is reported as drift at the end.
+	suspect := ""
+	overlapped := map[int]bool{} // surveys that were in flight when another survey returned
+	defer func() {
+		if suspect != "" && completed == 1 {
+			drift("internal state only, no observable consequence in this behaviour: " + suspect)
+		}
+	}()
 	quiesce := func(st map[string]any) bool {
+		if suspect != "" {
+			time.Sleep(time.Millisecond)
+			return true
+		}
 		for i := 1; i <= maxS; i++ {
 			state := vh.Str(at(st["st"], i))
 			want := len(vh.List(at(st["buf"], i)))
-			deadline := time.Now().Add(c41Wait)
+			start := time.Now()
+			deadline := start.Add(c41Wait)
 			for {
 				l, c, ok := centrifuge.VerifClusterSurveyChan(node, realOf(i))
 				good := false
@@ -249,15 +264,18 @@ func (w *c41Worker) run(bi int, beh []map[string]any, res *vh.Result) {
 				if good {
 					break
 				}
-				if time.Now().After(deadline) {
+				regMismatch := ok != (state != "idle" && state != "returned")
+				if time.Now().After(deadline) || (regMismatch && time.Since(start) > 50*time.Millisecond) {
 					sv := svs[i]
-					if state == "collecting" && sv != nil && !ok && !isClosed(sv.exited) {
-					violate("unregistered-while-collecting", fmt.Sprintf("survey %d is waiting for answers but is not in the survey registry: no answer can reach it", i))
-				} else if state == "collecting" && sv != nil && isClosed(sv.exited) {
+					if state == "collecting" && sv != nil && isClosed(sv.exited) {
 						violate("early-return", fmt.Sprintf("survey %d finished collecting although only %s answered and the deadline has not passed", i, answered(vh.Map(at(st["results"], i)))))
-					} else {
-						drift(fmt.Sprintf("survey %d in model state %s: registered=%v channel len=%d, model buffer %d", i, state, ok, l, want))
+						return false
 					}
+					if regMismatch {
+						suspect = fmt.Sprintf("survey %d is in model state %s but the survey registry says registered=%v (ids registered: %v)", i, state, ok, centrifuge.VerifClusterSurveyIDs(node))
+						return true
+					}
+					drift(fmt.Sprintf("survey %d in model state %s: registered=%v channel len=%d, model buffer %d", i, state, ok, l, want))
 					return false
 				}
 				time.Sleep(100 * time.Microsecond)
@@ -278,7 +296,14 @@ func (w *c41Worker) run(bi int, beh []map[string]any, res *vh.Result) {
 		sv := svs[id]
 		expectExit := func(cause string) bool {
 			if !waitCh(sv.exited, c41Wait) {
-				violate("no-return:"+cause, fmt.Sprintf("survey %d does not finish although %s", id, map[string]string{"complete": "every expected node answered", "deadline": "the deadline passed"}[cause]))
+				sig, extra := "no-return:"+cause, ""
+				if cause == "complete" && overlapped[id] {
+					sig, extra = "overlap:newer-survey-loses-answers", " (another survey returned while this one was in flight)"
+				}
+				if suspect != "" {
+					extra += "; " + suspect
+				}
+				violate(sig, fmt.Sprintf("survey %d does not finish although %s%s", id, map[string]string{"complete": "every expected node answered", "deadline": "the deadline passed"}[cause], extra))
 				return false
 			}
 			return true
@@ -361,6 +386,11 @@ func (w *c41Worker) run(bi int, beh []map[string]any, res *vh.Result) {
 				return
 			}
 			sv.ret <- r // keep for the cleanup
+			for j, o := range svs {
+				if j != id && !isClosed(o.retGate) {
+					overlapped[j] = true
+				}
+			}
 			want := map[string]string{}
 			for u, p := range vh.Map(step["res"]) {
 				pm := vh.Map(p)
